@@ -35,8 +35,10 @@ class ExpandDims(ArrayExpr):
         meta = self.array._meta
         for ax in sorted(self.axes):
             meta = np.expand_dims(meta, axis=ax)
-        if getattr(meta, "size", 0):
-            # A 0-d input has a one-element meta; metas of rank >= 1 are empty.
+        if any(s != 0 for s in getattr(meta, "shape", ())):
+            # The inserted axes have length 1 (and a 0-d input has a one-element
+            # meta); metas of rank >= 1 have length 0 on every axis, or they do
+            # not broadcast against the metas of sibling operands.
             meta = meta_from_array(meta, ndim=meta.ndim)
         return meta
 
